@@ -128,6 +128,10 @@ fn main() {
                     sweep: match v["opts"]["sweep"].as_str().unwrap_or("none") { "quick" => replay::Sweep::Quick, "full" => replay::Sweep::Full, _ => replay::Sweep::None },
                     sweep_fin: v["opts"]["sweep_fin"].as_bool().unwrap_or(false),
                     shadow_no_reload: v["opts"]["shadow_no_reload"].as_bool().unwrap_or(false),
+                    shadow_direct: v["opts"]["shadow_direct"].as_bool().unwrap_or(false),
+                    scan_secrets: v["opts"]["scan_secrets"].as_bool().unwrap_or(false),
+                    tape_swap: v["opts"]["tape_swap"].as_bool().unwrap_or(false),
+                    check_ksf: v["opts"]["check_ksf"].as_bool().unwrap_or(false),
                     ext_fail_at: v["opts"]["ext_fail_at"].as_u64().unwrap_or(1) as u32,
                 };
                 let r = replay::run_one(s.as_ref(), &prof, v["run_seed"].as_u64().unwrap(), &evs, &opts);
@@ -162,11 +166,17 @@ fn main() {
                     sweep: match args.get("sweep", "none").as_str() { "quick" => replay::Sweep::Quick, "full" => replay::Sweep::Full, _ => replay::Sweep::None },
                     sweep_fin: args.get("sweep-fin", "no") == "yes",
                     shadow_no_reload: args.get("shadow-no-reload", "no") == "yes",
+                    shadow_direct: args.get("shadow-direct", "no") == "yes",
+                    scan_secrets: args.get("scan-secrets", "no") == "yes",
+                    tape_swap: args.get("tape-swap", "no") == "yes",
+                    check_ksf: args.get("check-ksf", "no") == "yes",
                     ext_fail_at: args.num("ext-fail-at", 1) as u32,
                 },
             };
             let opts_json = json!({"sweep": args.get("sweep", "none"), "sweep_fin": job.opts.sweep_fin,
-                "shadow_no_reload": job.opts.shadow_no_reload, "ext_fail_at": job.opts.ext_fail_at});
+                "shadow_no_reload": job.opts.shadow_no_reload, "shadow_direct": job.opts.shadow_direct,
+                "scan_secrets": job.opts.scan_secrets, "tape_swap": job.opts.tape_swap, "check_ksf": job.opts.check_ksf,
+                "ext_fail_at": job.opts.ext_fail_at});
             let t0 = std::time::Instant::now();
             let sum = replay::run(&job);
             let dir = args.get("replay-dir", "/verif/replays");
@@ -267,8 +277,10 @@ fn main() {
                 for g in 0..segments {
                     let prof = profiles[(si + g) % profiles.len()].clone();
                     let mut r = record::Recorder::new(*s, seed.wrapping_add((si * 1000 + g) as u64), prof);
+                    r.long_pct = args.num("long", 0);
                     match driver.as_str() {
                         "random" => r.random_segment(&mut rng, steps, adv),
+                        "ksf" => r.ksf_segment(&mut rng),
                         other => panic!("unknown driver {other}"),
                     }
                     if r.w.atoms_collide() {
